@@ -117,6 +117,13 @@ Qed.
 Lemma bal_of_set_acct l a x b : bal_of (set_acct l a x) b = if decide (a = b) then a_bal x else bal_of l b.
 Proof. unfold bal_of. rewrite acct_of_set_acct. destruct (decide (a = b)); reflexivity. Qed.
 
+Lemma bal_of_set_dels l m a : bal_of (set_dels l m) a = bal_of l a.       Proof. reflexivity. Qed.
+Lemma bal_of_set_frozen l m a : bal_of (set_frozen l m) a = bal_of l a.   Proof. reflexivity. Qed.
+Lemma bal_of_set_rewards l m a : bal_of (set_rewards l m) a = bal_of l a. Proof. reflexivity. Qed.
+Lemma bal_of_set_props l m a : bal_of (set_props l m) a = bal_of l a.     Proof. reflexivity. Qed.
+Lemma bal_of_set_fprops l m a : bal_of (set_fprops l m) a = bal_of l a.   Proof. reflexivity. Qed.
+Lemma bal_of_set_lparams l m a : bal_of (set_lparams l m) a = bal_of l a. Proof. reflexivity. Qed.
+
 Lemma bal_of_lookup l a x : accts l !! a = Some x -> bal_of l a = a_bal x.
 Proof. intros H. unfold bal_of, acct_of. rewrite H. reflexivity. Qed.
 
@@ -309,10 +316,10 @@ Proof.
   destruct (common_validation0 (gparams s) t) as [e|] eqn:E0; [discriminate|].
   destruct (common_validation1 sender t) as [e|] eqn:E1; [discriminate|].
   destruct (validated_of (pre_state s t) (receiver_of s t) t) as [lim'|e|p] eqn:Ev; [|discriminate|discriminate].
-  intros H. exists sender, lim'. repeat (split; [reflexivity|]). cbv zeta.
+  intros H. exists sender, lim'. repeat (split; [first [assumption|reflexivity]|]). cbv zeta.
   destruct (evm_path_of t (receiver_of s t)) eqn:Ep; cbv iota.
   - destruct (evm_execute _ t) as [[l' gas]|e|p] eqn:Ee; [|discriminate|discriminate].
-    injection H as <- <-. Show. exists l'. split; reflexivity.
+    injection H as <- <-. exists l'. split; reflexivity.
   - destruct (exec_native _ t) as [l'|e|p] eqn:Ee; [|discriminate|discriminate].
     unfold post_run in H.
     destruct (accts l' !! t_from t) as [snd'|] eqn:Esn; [|discriminate].
@@ -352,4 +359,863 @@ Proof.
   rewrite fee_of_exact in Hfee by (rewrite ?Hpr; assumption).
   rewrite mul256_small in Hfee; [lia|].
   rewrite Z.mul_comm. apply mul_lt_two256; assumption.
+Qed.
+
+(* the literal intended statement fails in the model: a contract transaction whose payload is not
+   a contract payload is admitted against the default intrinsic gas 21000 (a modelling artefact:
+   the decoder of the real node only produces contract payloads for TRX_CONTRACT) *)
+Definition demo_params : params := {|
+  g_version := 1; g_maxValidatorCnt := 21; g_minValidatorStake := 7 * amountPerPower;
+  g_minDelegatorStake := 0; g_rewardPerPower := 1000; g_lazyRewardBlocks := 10; g_lazyApplyingBlocks := 10;
+  g_gasPrice := 10; g_minTrxGas := 4000; g_maxTrxGas := 25000000; g_maxBlockGas := 100000000;
+  g_minVotingPeriodBlocks := 1; g_maxVotingPeriodBlocks := 100; g_minSelfStakeRatio := 50;
+  g_maxUpdatableStakeRatio := 30; g_maxIndividualStakeRatio := 10000000; g_slashRatio := 50;
+  g_signedBlocksWindow := 10000; g_minSignedBlocks := 500 |}.
+
+Definition demo_tx (ty : Z) (from to : addr) (amount gas nonce : Z) (pl : payload) (h : hash) : tx :=
+  {| t_type := ty; t_from := from; t_to := to; t_from_ok := true; t_to_ok := true; t_amount := amount;
+     t_price := 10; t_gas := gas; t_nonce := nonce; t_payload := pl; t_hash := h; t_sigok := true; t_evm := None |}.
+
+Definition demo_hdr (h : Z) (p : option addr) : header :=
+  {| h_height := h; h_proposer := p; h_votes := []; h_evidence := [] |}.
+
+(* holders 1,2,3 with 10^21 each; validators 11 and 12 with power 100 and 50 *)
+Definition demo_genesis : genesis := {|
+  gen_params := demo_params;
+  gen_holders := [(1%N, 1000 * amountPerPower); (2%N, 1000 * amountPerPower); (3%N, 1000 * amountPerPower);
+                  (11%N, 1000 * amountPerPower); (12%N, 1000 * amountPerPower)];
+  gen_validators := [(11%N, 100); (12%N, 50)] |}.
+
+Definition demo_s1 : state := (begin_block (init_chain demo_genesis) (demo_hdr 1 (Some 11%N))).1.
+
+Lemma deliver_ok_admission_literal_refuted :
+  exists s t s' g, deliver s t = (s', Ok g) /\ t_type t = TRX_CONTRACT /\
+    ~ (exists i, t_payload t = PContract i /\ i <= t_gas t).
+Proof.
+  exists demo_s1.
+  exists {| t_type := TRX_CONTRACT; t_from := 1%N; t_to := 2%N; t_from_ok := true; t_to_ok := true; t_amount := 0;
+            t_price := 10; t_gas := 30000; t_nonce := 0; t_payload := PNone; t_hash := 77%N; t_sigok := true;
+            t_evm := Some {| e_ok := true; e_gas := 21000; e_created := None; e_accts := [] |} |}.
+  eexists. eexists. split; [vm_compute; reflexivity|]. split; [reflexivity|].
+  intros (i & Hp & _). discriminate Hp.
+Qed.
+
+(* a plain transfer to a contract account runs the EVM but is admitted with any gas limit that
+   covers the minimum fee: 21000 intrinsic gas is NOT required of it *)
+Lemma transfer_to_contract_no_intrinsic_check :
+  exists s t s' g, deliver s t = (s', Ok g) /\ t_type t = TRX_TRANSFER /\
+    a_code (acct_of (work s) (t_to t)) = true /\ t_gas t < 21000.
+Proof.
+  set (s0 := demo_s1).
+  set (s := with_work s0 (set_acct (work s0) 2%N {| a_nonce := 0; a_bal := 5; a_code := true; a_name := 0%N; a_doc := 0%N |})).
+  exists s.
+  exists {| t_type := TRX_TRANSFER; t_from := 1%N; t_to := 2%N; t_from_ok := true; t_to_ok := true; t_amount := 1;
+            t_price := 10; t_gas := 4000; t_nonce := 0; t_payload := PNone; t_hash := 78%N; t_sigok := true;
+            t_evm := Some {| e_ok := true; e_gas := 4000; e_created := None; e_accts := [] |} |}.
+  eexists. eexists. split; [vm_compute; reflexivity|]. split; [reflexivity|]. split; [reflexivity|].
+  vm_compute. reflexivity.
+Qed.
+
+(* ================================================================== F2: exact cost, native path *)
+(* the requested amount of a withdrawal is a uint256 *)
+Definition payload_wf (t : tx) : Prop :=
+  forall req, t_type t = TRX_WITHDRAW -> t_payload t = PWithdraw req -> 0 <= req < two256.
+
+Definition bal_range (l : ledgers) : Prop := forall a x, accts l !! a = Some x -> 0 <= a_bal x < two256.
+
+Lemma ranges_ok_bal_range l : ranges_ok l -> bal_range l.
+Proof. intros (H & _) a x Hx. apply (H a x Hx). Qed.
+
+Lemma bal_range_bal_of l a : bal_range l -> 0 <= bal_of l a < two256.
+Proof.
+  intros H. unfold bal_of, acct_of. destruct (accts l !! a) as [x|] eqn:E; simpl.
+  - apply (H a x E).
+  - pose proof two256_pos. lia.
+Qed.
+
+Lemma bal_range_find_or_new l a : bal_range l -> bal_range (find_or_new l a).1.
+Proof.
+  intros H b x Hb. destruct (find_or_new_spec l a) as (_ & _ & _ & _ & Hinv & _).
+  destruct (Hinv b x Hb) as [Hl|(_ & -> & _)]; [apply (H b x Hl)|].
+  simpl. pose proof two256_pos. lia.
+Qed.
+
+Lemma bal_range_set_acct l a x : bal_range l -> 0 <= a_bal x < two256 -> bal_range (set_acct l a x).
+Proof.
+  intros H Hx b y. rewrite accts_set_acct. destruct (decide (a = b)) as [->|Hne].
+  - rewrite lookup_insert. intros [= <-]. exact Hx.
+  - rewrite lookup_insert_ne by exact Hne. apply H.
+Qed.
+
+Lemma bal_of_find_or_new l a b : bal_of (find_or_new l a).1 b = bal_of l b.
+Proof. unfold bal_of. destruct (find_or_new_spec l a) as (_ & _ & H & _). rewrite H. reflexivity. Qed.
+
+(* which transaction types reach the native executors *)
+Lemma validated_native_types s1 r t lim' :
+  validated_of s1 r t = Ok lim' -> evm_path_of t r = false ->
+  t_type t = TRX_TRANSFER \/ t_type t = TRX_STAKING \/ t_type t = TRX_UNSTAKING \/ t_type t = TRX_PROPOSAL \/
+  t_type t = TRX_VOTING \/ t_type t = TRX_SETDOC \/ t_type t = TRX_WITHDRAW.
+Proof.
+  unfold validated_of, evm_path_of. intros Hv Hp.
+  destruct (t_type t =? TRX_PROPOSAL) eqn:E4; [apply Z.eqb_eq in E4; auto 10|].
+  destruct (t_type t =? TRX_VOTING) eqn:E5; [apply Z.eqb_eq in E5; auto 10|].
+  destruct (t_type t =? TRX_TRANSFER) eqn:E1; [apply Z.eqb_eq in E1; auto 10|].
+  destruct (t_type t =? TRX_SETDOC) eqn:E7; [apply Z.eqb_eq in E7; auto 10|].
+  destruct (t_type t =? TRX_STAKING) eqn:E2; [apply Z.eqb_eq in E2; auto 10|].
+  destruct (t_type t =? TRX_UNSTAKING) eqn:E3; [apply Z.eqb_eq in E3; auto 10|].
+  destruct (t_type t =? TRX_WITHDRAW) eqn:E8; [apply Z.eqb_eq in E8; auto 10|].
+  cbn [orb] in Hv. destruct (t_type t =? TRX_CONTRACT) eqn:E6; [|discriminate]. discriminate Hp.
+Qed.
+
+Lemma exec_native_transfer s2 t : t_type t = TRX_TRANSFER -> exec_native s2 t = acct_execute (work s2) t.
+Proof. unfold exec_native. intros ->. reflexivity. Qed.
+Lemma exec_native_setdoc s2 t : t_type t = TRX_SETDOC -> exec_native s2 t = acct_execute (work s2) t.
+Proof. unfold exec_native. intros ->. reflexivity. Qed.
+Lemma exec_native_proposal s2 t : t_type t = TRX_PROPOSAL -> exec_native s2 t = gov_execute s2 (work s2) t.
+Proof. unfold exec_native. intros ->. reflexivity. Qed.
+Lemma exec_native_voting s2 t : t_type t = TRX_VOTING -> exec_native s2 t = gov_execute s2 (work s2) t.
+Proof. unfold exec_native. intros ->. reflexivity. Qed.
+Lemma exec_native_staking s2 t : t_type t = TRX_STAKING -> exec_native s2 t = stake_execute s2 (work s2) t.
+Proof. unfold exec_native. intros ->. reflexivity. Qed.
+Lemma exec_native_unstaking s2 t : t_type t = TRX_UNSTAKING -> exec_native s2 t = stake_execute s2 (work s2) t.
+Proof. unfold exec_native. intros ->. reflexivity. Qed.
+Lemma exec_native_withdraw s2 t : t_type t = TRX_WITHDRAW -> exec_native s2 t = stake_execute s2 (work s2) t.
+Proof. unfold exec_native. intros ->. reflexivity. Qed.
+
+(* ---- inversion of the executors *)
+Lemma acct_execute_transfer_inv l t l' :
+  t_type t = TRX_TRANSFER -> acct_execute l t = Ok l' ->
+  exists sender receiver sender' recv',
+    accts l !! t_from t = Some sender /\ accts l !! t_to t = Some receiver /\
+    sub_balance sender (t_amount t) = Some sender' /\
+    add_balance (if (t_from t =? t_to t)%N then sender' else receiver) (t_amount t) = Some recv' /\
+    l' = set_acct (set_acct l (t_from t) sender') (t_to t) recv'.
+Proof.
+  intros Hty. unfold acct_execute. rewrite Hty.
+  destruct (accts l !! t_from t) as [sender|]; [|discriminate].
+  destruct (accts l !! t_to t) as [receiver|]; [|discriminate].
+  change (TRX_TRANSFER =? TRX_TRANSFER) with true. cbv iota.
+  destruct (sub_balance sender (t_amount t)) as [sender'|] eqn:Es; [|discriminate].
+  destruct (add_balance _ (t_amount t)) as [recv'|] eqn:Ea; [|discriminate].
+  intros [= <-]. exists sender, receiver, sender', recv'. auto.
+Qed.
+
+Lemma acct_execute_setdoc_inv l t l' :
+  t_type t = TRX_SETDOC -> acct_execute l t = Ok l' ->
+  exists sender x, accts l !! t_from t = Some sender /\ a_bal x = a_bal sender /\ a_nonce x = a_nonce sender /\
+                   a_code x = a_code sender /\ l' = set_acct l (t_from t) x.
+Proof.
+  intros Hty. unfold acct_execute. rewrite Hty.
+  destruct (accts l !! t_from t) as [sender|]; [|discriminate].
+  destruct (accts l !! t_to t) as [receiver|]; [|discriminate].
+  change (TRX_SETDOC =? TRX_TRANSFER) with false. cbv iota.
+  destruct (t_payload t) as [| | | | |name url nl ul|]; try discriminate.
+  intros [= <-].
+  exists sender, {| a_nonce := a_nonce sender; a_bal := a_bal sender; a_code := a_code sender; a_name := name; a_doc := url |}.
+  repeat split.
+Qed.
+
+Lemma gov_execute_accts s2 l t l' :
+  gov_execute s2 l t = Ok l' ->
+  accts l' = accts l /\ dels l' = dels l /\ frozen l' = frozen l /\ rewards l' = rewards l.
+Proof.
+  unfold gov_execute.
+  destruct (t_type t =? TRX_PROPOSAL).
+  - destruct (t_payload t); try discriminate. intros [= <-]. auto.
+  - destruct (t_payload t) as [| | | |ph choice| |]; try discriminate.
+    destruct (props l !! ph) as [p|]; [|discriminate].
+    destruct (prop_vote p (t_from t) choice); [|discriminate]. intros [= <-]. auto.
+Qed.
+
+Lemma stake_execute_staking_inv s2 l t l' :
+  t_type t = TRX_STAKING -> stake_execute s2 l t = Ok l' ->
+  exists d sender sender',
+    (dels l !! t_to t = Some d \/ (dels l !! t_to t = None /\ t_from t = t_to t /\ d = new_delegatee (t_from t))) /\
+    accts l !! t_from t = Some sender /\ sub_balance sender (t_amount t) = Some sender' /\
+    l' = set_dels (set_acct l (t_from t) sender')
+           (<[t_to t := add_stake d (stake_of_tx t (b_height (bctx s2)) (power_of (t_amount t)))]> (dels l)).
+Proof.
+  intros Hty. unfold stake_execute. rewrite Hty. change (TRX_STAKING =? TRX_STAKING) with true. cbv iota zeta.
+  destruct (dels l !! t_to t) as [d|] eqn:Ed.
+  - destruct (accts l !! t_from t) as [sender|]; [|discriminate].
+    destruct (sub_balance sender (t_amount t)) as [sender'|] eqn:Es; [|discriminate].
+    intros [= <-]. exists d, sender, sender'. auto.
+  - destruct (t_from t =? t_to t)%N eqn:Eft; [|discriminate]. apply N.eqb_eq in Eft.
+    destruct (accts l !! t_from t) as [sender|]; [|discriminate].
+    destruct (sub_balance sender (t_amount t)) as [sender'|] eqn:Es; [|discriminate].
+    intros [= <-]. exists (new_delegatee (t_from t)), sender, sender'. auto 10.
+Qed.
+
+Lemma stake_execute_unstaking_accts s2 l t l' :
+  t_type t = TRX_UNSTAKING -> stake_execute s2 l t = Ok l' -> accts l' = accts l /\ rewards l' = rewards l.
+Proof.
+  intros Hty. unfold stake_execute. rewrite Hty.
+  change (TRX_UNSTAKING =? TRX_STAKING) with false. change (TRX_UNSTAKING =? TRX_UNSTAKING) with true. cbv iota zeta.
+  destruct (dels l !! t_to t) as [d|]; [|discriminate].
+  destruct (t_payload t) as [|hs lenok| | | | |]; try discriminate.
+  destruct (find_stake hs (d_stakes d)) as [s0|]; [|discriminate].
+  destruct (negb (s_from s0 =? t_from t)%N); [discriminate|].
+  destruct (d_self (del_stake d hs) =? 0).
+  - destruct (del_all_stakes (del_stake d hs)) as [dx ss].
+    destruct (d_total dx =? 0); intros [= <-]; auto.
+  - destruct (d_total (del_stake d hs) =? 0); intros [= <-]; auto.
+Qed.
+
+Lemma stake_execute_withdraw_inv s2 l t l' :
+  t_type t = TRX_WITHDRAW -> stake_execute s2 l t = Ok l' ->
+  exists req r r' x x',
+    t_payload t = PWithdraw req /\ rewards l !! t_from t = Some r /\ accts l !! t_from t = Some x /\
+    add_balance x req = Some x' /\
+    l' = set_acct (set_rewards l (<[t_from t := r']> (rewards l))) (t_from t) x'.
+Proof.
+  intros Hty. unfold stake_execute. rewrite Hty.
+  change (TRX_WITHDRAW =? TRX_STAKING) with false. change (TRX_WITHDRAW =? TRX_UNSTAKING) with false. cbv iota zeta.
+  destruct (t_payload t) as [| |req| | | |]; try discriminate.
+  destruct (rewards l !! t_from t) as [r|]; [|discriminate].
+  destruct (r_height r >? b_height (bctx s2)); [discriminate|].
+  unfold acct_reward. rewrite accts_set_rewards.
+  destruct (accts l !! t_from t) as [x|]; [|discriminate]. cbn [mbind option_bind].
+  destruct (add_balance x req) as [x'|] eqn:Ea; [|discriminate]. cbn [mbind option_bind].
+  intros [= <-]. eexists req, r, _, x, x'. repeat (split; [first [reflexivity|exact Ea]|]). reflexivity.
+Qed.
+
+(* ---- what a native transaction itself moves *)
+(* taken from the sender besides the fee: the transferred / staked amount *)
+Definition tx_out (t : tx) : Z :=
+  if (t_type t =? TRX_TRANSFER) || (t_type t =? TRX_STAKING) then t_amount t else 0.
+(* credited to account [a]: a transfer credits the receiver, a withdrawal the sender *)
+Definition tx_in (t : tx) (a : addr) : Z :=
+  if t_type t =? TRX_TRANSFER then (if decide (a = t_to t) then t_amount t else 0)
+  else if t_type t =? TRX_WITHDRAW then
+    match t_payload t with PWithdraw req => if decide (a = t_from t) then req else 0 | _ => 0 end
+  else 0.
+(* the credit fits: needed for every credited account except the sender of a self-transfer *)
+Definition room_for (l : ledgers) (t : tx) (a : addr) : Prop :=
+  (t_type t = TRX_TRANSFER /\ a = t_from t) \/ bal_of l a + tx_in t a < two256.
+
+Lemma tx_in_nonneg t a : tx_wf t -> payload_wf t -> 0 <= tx_in t a.
+Proof.
+  intros (Ha & _) Hp. unfold tx_in, payload_wf in *.
+  destruct (t_type t =? TRX_TRANSFER); [destruct (decide (a = t_to t)); lia|].
+  destruct (t_type t =? TRX_WITHDRAW) eqn:E; [|lia]. apply Z.eqb_eq in E.
+  destruct (t_payload t) as [| |req| | | |]; try lia. specialize (Hp req E eq_refl).
+  destruct (decide (a = t_from t)); lia.
+Qed.
+
+Lemma exec_native_balances s1 s2 t l' lim' r :
+  validated_of s1 r t = Ok lim' -> evm_path_of t r = false ->
+  exec_native s2 t = Ok l' -> tx_wf t -> payload_wf t -> bal_range (work s2) ->
+  bal_range l' /\
+  forall a, room_for (work s2) t a ->
+    bal_of l' a = bal_of (work s2) a + tx_in t a - (if decide (a = t_from t) then tx_out t else 0).
+Proof.
+  intros Hv Hp He (Hamt & _) Hpl Hr.
+  pose proof two256_pos as H256.
+  destruct (validated_native_types _ _ _ _ Hv Hp) as [Hty|[Hty|[Hty|[Hty|[Hty|[Hty|Hty]]]]]];
+    unfold tx_in, tx_out, room_for; rewrite Hty; cbn [Z.eqb Pos.eqb orb TRX_TRANSFER TRX_STAKING TRX_UNSTAKING
+      TRX_PROPOSAL TRX_VOTING TRX_SETDOC TRX_WITHDRAW].
+  - (* transfer *)
+    rewrite exec_native_transfer in He by exact Hty.
+    apply acct_execute_transfer_inv in He as (sender & receiver & sender' & recv' & Hs & Hrc & Hsub & Hadd & ->);
+      [|exact Hty].
+    pose proof (Hr _ _ Hs) as Hsr. pose proof (Hr _ _ Hrc) as Hrr.
+    apply sub_balance_Some in Hsub as (Hle & Hb' & _); [|lia|exact Hsr].
+    apply add_balance_Some in Hadd as (_ & Hrb & _); [|lia].
+    split.
+    + apply bal_range_set_acct; [apply bal_range_set_acct; [exact Hr|lia]|]. rewrite Hrb. apply add256_range.
+    + intros a Hroom. rewrite !bal_of_set_acct.
+      pose proof (bal_of_lookup _ _ _ Hs) as Hbs. pose proof (bal_of_lookup _ _ _ Hrc) as Hbr.
+      destruct (t_from t =? t_to t)%N eqn:Eft.
+      * apply N.eqb_eq in Eft. rewrite <- Eft in *.
+        rewrite Hb', add256_small in Hrb by lia.
+        destruct (decide (t_from t = a)) as [<-|Hne].
+        -- destruct (decide (t_from t = t_from t)); [lia|congruence].
+        -- destruct (decide (a = t_from t)); [congruence|]. lia.
+      * apply N.eqb_neq in Eft.
+        destruct (decide (t_to t = a)) as [<-|Hne].
+        -- destruct (decide (t_to t = t_to t)); [|congruence]. destruct (decide (t_to t = t_from t)); [congruence|].
+           destruct Hroom as [(_ & Hx)|Hroom]; [congruence|].
+           unfold tx_in in Hroom. rewrite Hty in Hroom. cbn in Hroom.
+           destruct (decide (t_to t = t_to t)); [|congruence].
+           rewrite Hrb, add256_small by lia. lia.
+        -- destruct (decide (a = t_to t)); [congruence|].
+           destruct (decide (t_from t = a)) as [<-|Hne2].
+           ++ destruct (decide (t_from t = t_from t)); [|congruence]. lia.
+           ++ destruct (decide (a = t_from t)); [congruence|]. lia.
+  - (* staking *)
+    rewrite exec_native_staking in He by exact Hty.
+    apply stake_execute_staking_inv in He as (d & sender & sender' & _ & Hs & Hsub & ->); [|exact Hty].
+    pose proof (Hr _ _ Hs) as Hsr.
+    apply sub_balance_Some in Hsub as (Hle & Hb' & _); [|lia|exact Hsr].
+    split.
+    + intros a x. rewrite accts_set_dels. apply bal_range_set_acct; [exact Hr|lia].
+    + intros a _. rewrite bal_of_set_dels, bal_of_set_acct.
+      pose proof (bal_of_lookup _ _ _ Hs) as Hbs.
+      destruct (decide (t_from t = a)) as [<-|Hne].
+      * destruct (decide (t_from t = t_from t)); [|congruence]. lia.
+      * destruct (decide (a = t_from t)); [congruence|]. lia.
+  - (* unstaking *)
+    rewrite exec_native_unstaking in He by exact Hty.
+    apply stake_execute_unstaking_accts in He as (Ha & _); [|exact Hty].
+    split; [intros a x; rewrite Ha; apply Hr|].
+    intros a _. rewrite (bal_of_same_accts _ _ a Ha). destruct (decide (a = t_from t)); lia.
+  - (* proposal *)
+    rewrite exec_native_proposal in He by exact Hty. apply gov_execute_accts in He as (Ha & _).
+    split; [intros a x; rewrite Ha; apply Hr|].
+    intros a _. rewrite (bal_of_same_accts _ _ a Ha). destruct (decide (a = t_from t)); lia.
+  - (* voting *)
+    rewrite exec_native_voting in He by exact Hty. apply gov_execute_accts in He as (Ha & _).
+    split; [intros a x; rewrite Ha; apply Hr|].
+    intros a _. rewrite (bal_of_same_accts _ _ a Ha). destruct (decide (a = t_from t)); lia.
+  - (* setdoc *)
+    rewrite exec_native_setdoc in He by exact Hty.
+    apply acct_execute_setdoc_inv in He as (sender & x & Hs & Hb & _ & _ & ->); [|exact Hty].
+    pose proof (Hr _ _ Hs) as Hsr.
+    split; [apply bal_range_set_acct; [exact Hr|lia]|].
+    intros a _. rewrite bal_of_set_acct. pose proof (bal_of_lookup _ _ _ Hs) as Hbs.
+    destruct (decide (t_from t = a)) as [<-|Hne].
+    + destruct (decide (t_from t = t_from t)); lia.
+    + destruct (decide (a = t_from t)); lia.
+  - (* withdraw *)
+    rewrite exec_native_withdraw in He by exact Hty.
+    apply stake_execute_withdraw_inv in He as (req & r0 & r' & x & x' & Hpay & _ & Hx & Hadd & ->); [|exact Hty].
+    specialize (Hpl req Hty Hpay). rewrite Hpay in *.
+    apply add_balance_Some in Hadd as (_ & Hb' & _); [|lia].
+    pose proof (Hr _ _ Hx) as Hxr.
+    split; [apply bal_range_set_acct; [exact Hr|rewrite Hb'; apply add256_range]|].
+    intros a Hroom. rewrite bal_of_set_acct, bal_of_set_rewards.
+    pose proof (bal_of_lookup _ _ _ Hx) as Hbx.
+    destruct (decide (t_from t = a)) as [<-|Hne].
+    + destruct (decide (t_from t = t_from t)); [|congruence].
+      destruct Hroom as [(Hx1 & _)|Hroom]; [discriminate Hx1|].
+      unfold tx_in in Hroom. rewrite Hty, Hpay in Hroom. cbn in Hroom.
+      destruct (decide (t_from t = t_from t)); [|congruence].
+      rewrite Hb', add256_small by lia. lia.
+    + destruct (decide (a = t_from t)); [congruence|]. lia.
+Qed.
+
+(* C16, exact cost on the native path: gas used is the whole gas limit; every balance changes by
+   exactly (what the transaction credits) - (fee and what the transaction takes, for the sender);
+   in particular all accounts other than sender / receiver keep their balance.  Equations are
+   over Z: nothing wraps. *)
+Theorem deliver_native_balances s t s' g :
+  deliver s t = (s', Ok g) -> native s t -> tx_wf t -> payload_wf t -> bal_range (work s) ->
+  g = t_gas t /\ bal_range (work s') /\
+  forall a, room_for (work s) t a ->
+    bal_of (work s') a = bal_of (work s) a + tx_in t a - (if decide (a = t_from t) then fee_of t + tx_out t else 0).
+Proof.
+  intros Hd Hn Hwf Hpl Hr.
+  apply deliver_ok_inv in Hd as (sender & lim' & Hs & H0 & H1 & Hv & Hd). cbv zeta in Hd.
+  rewrite receiver_of_eq in Hv, Hd. unfold native in Hn. rewrite Hn in Hd.
+  destruct Hd as (l' & snd' & snd'' & He & Hsn & Hsub & -> & ->).
+  split; [reflexivity|].
+  assert (Hr0 : bal_range (work (with_lim (pre_state s t) lim'))).
+  { cbn [work with_lim]. rewrite pre_state_work. apply bal_range_find_or_new. exact Hr. }
+  destruct (exec_native_balances _ _ _ _ _ _ Hv Hn He Hwf Hpl Hr0) as (Hr' & Hbal).
+  pose proof (Hr' _ _ Hsn) as Hsr. pose proof (fee_of_range t) as Hfr.
+  apply sub_balance_Some in Hsub as (Hle & Hb'' & _); [|lia|exact Hsr].
+  cbn [work with_bctx with_work].
+  split; [apply bal_range_set_acct; [exact Hr'|rewrite add_nonce_bal; lia]|].
+  intros a Hroom. rewrite bal_of_set_acct.
+  assert (Hroom' : room_for (work (with_lim (pre_state s t) lim')) t a).
+  { unfold room_for in *. cbn [work with_lim]. rewrite pre_state_work, bal_of_find_or_new. exact Hroom. }
+  specialize (Hbal a Hroom'). cbn [work with_lim] in Hbal. rewrite pre_state_work, bal_of_find_or_new in Hbal.
+  destruct (decide (t_from t = a)) as [<-|Hne].
+  - destruct (decide (t_from t = t_from t)); [|congruence].
+    rewrite add_nonce_bal, Hb''. rewrite (bal_of_lookup _ _ _ Hsn) in Hbal. lia.
+  - destruct (decide (a = t_from t)); [congruence|]. lia.
+Qed.
+Print Assumptions deliver_native_balances.
+
+(* readable instances *)
+Lemma payload_wf_other t : t_type t <> TRX_WITHDRAW -> payload_wf t.
+Proof. intros H req Hty. contradiction. Qed.
+
+Corollary deliver_transfer_cost s t s' g :
+  deliver s t = (s', Ok g) -> native s t -> t_type t = TRX_TRANSFER -> tx_wf t -> ranges_ok (work s) ->
+  g = t_gas t /\
+  (t_from t <> t_to t ->
+     bal_of (work s') (t_from t) = bal_of (work s) (t_from t) - fee_of t - t_amount t /\
+     (bal_of (work s) (t_to t) + t_amount t < two256 ->
+      bal_of (work s') (t_to t) = bal_of (work s) (t_to t) + t_amount t)) /\
+  (t_from t = t_to t -> bal_of (work s') (t_from t) = bal_of (work s) (t_from t) - fee_of t) /\
+  (forall a, a <> t_from t -> a <> t_to t -> bal_of (work s') a = bal_of (work s) a).
+Proof.
+  intros Hd Hn Hty Hwf Hr.
+  assert (Hpl : payload_wf t) by (apply payload_wf_other; rewrite Hty; discriminate).
+  destruct (deliver_native_balances _ _ _ _ Hd Hn Hwf Hpl (ranges_ok_bal_range _ Hr)) as (Hg & _ & Hb).
+  split; [exact Hg|].
+  assert (Hin : forall a, tx_in t a = if decide (a = t_to t) then t_amount t else 0).
+  { intros a. unfold tx_in. rewrite Hty. reflexivity. }
+  assert (Hout : tx_out t = t_amount t) by (unfold tx_out; rewrite Hty; reflexivity).
+  split; [|split].
+  - intros Hne. split.
+    + rewrite (Hb (t_from t)) by (left; auto). rewrite Hin, Hout.
+      destruct (decide (t_from t = t_to t)); [contradiction|]. destruct (decide (t_from t = t_from t)); [lia|congruence].
+    + intros Hroom. rewrite (Hb (t_to t)).
+      * rewrite Hin. destruct (decide (t_to t = t_to t)); [|congruence].
+        destruct (decide (t_to t = t_from t)); [congruence|]. lia.
+      * right. rewrite Hin. destruct (decide (t_to t = t_to t)); [exact Hroom|congruence].
+  - intros Heq. rewrite (Hb (t_from t)) by (left; auto). rewrite Hin, Hout.
+    destruct (decide (t_from t = t_to t)); [|contradiction]. destruct (decide (t_from t = t_from t)); [lia|congruence].
+  - intros a Hna Hnb. rewrite (Hb a).
+    + rewrite Hin. destruct (decide (a = t_to t)); [contradiction|]. destruct (decide (a = t_from t)); [contradiction|]. lia.
+    + right. rewrite Hin. destruct (decide (a = t_to t)); [contradiction|].
+      pose proof (bal_range_bal_of _ a (ranges_ok_bal_range _ Hr)). lia.
+Qed.
+
+Corollary deliver_staking_cost s t s' g :
+  deliver s t = (s', Ok g) -> native s t -> t_type t = TRX_STAKING -> tx_wf t -> ranges_ok (work s) ->
+  g = t_gas t /\
+  bal_of (work s') (t_from t) = bal_of (work s) (t_from t) - fee_of t - t_amount t /\
+  (forall a, a <> t_from t -> bal_of (work s') a = bal_of (work s) a).
+Proof.
+  intros Hd Hn Hty Hwf Hr.
+  assert (Hpl : payload_wf t) by (apply payload_wf_other; rewrite Hty; discriminate).
+  destruct (deliver_native_balances _ _ _ _ Hd Hn Hwf Hpl (ranges_ok_bal_range _ Hr)) as (Hg & _ & Hb).
+  split; [exact Hg|].
+  assert (Hin : forall a, tx_in t a = 0) by (intros a; unfold tx_in; rewrite Hty; reflexivity).
+  assert (Hout : tx_out t = t_amount t) by (unfold tx_out; rewrite Hty; reflexivity).
+  assert (Hroom : forall a, room_for (work s) t a).
+  { intros a. right. rewrite Hin. pose proof (bal_range_bal_of _ a (ranges_ok_bal_range _ Hr)). lia. }
+  split.
+  - rewrite (Hb _ (Hroom _)), Hin, Hout. destruct (decide (t_from t = t_from t)); [lia|congruence].
+  - intros a Hne. rewrite (Hb _ (Hroom _)), Hin. destruct (decide (a = t_from t)); [contradiction|lia].
+Qed.
+
+Corollary deliver_withdraw_cost s t s' g req :
+  deliver s t = (s', Ok g) -> native s t -> t_type t = TRX_WITHDRAW -> t_payload t = PWithdraw req ->
+  tx_wf t -> 0 <= req < two256 -> ranges_ok (work s) ->
+  bal_of (work s) (t_from t) + req < two256 ->
+  g = t_gas t /\
+  bal_of (work s') (t_from t) = bal_of (work s) (t_from t) + req - fee_of t /\
+  (forall a, a <> t_from t -> bal_of (work s') a = bal_of (work s) a).
+Proof.
+  intros Hd Hn Hty Hpay Hwf Hreq Hr Hfit.
+  assert (Hpl : payload_wf t).
+  { intros req' _ Hp'. rewrite Hpay in Hp'. injection Hp' as <-. exact Hreq. }
+  destruct (deliver_native_balances _ _ _ _ Hd Hn Hwf Hpl (ranges_ok_bal_range _ Hr)) as (Hg & _ & Hb).
+  split; [exact Hg|].
+  assert (Hin : forall a, tx_in t a = if decide (a = t_from t) then req else 0).
+  { intros a. unfold tx_in. rewrite Hty, Hpay. reflexivity. }
+  assert (Hout : tx_out t = 0) by (unfold tx_out; rewrite Hty; reflexivity).
+  split.
+  - rewrite (Hb (t_from t)).
+    + rewrite Hin, Hout. destruct (decide (t_from t = t_from t)); [lia|congruence].
+    + right. rewrite Hin. destruct (decide (t_from t = t_from t)); [exact Hfit|congruence].
+  - intros a Hne. rewrite (Hb a).
+    + rewrite Hin. destruct (decide (a = t_from t)); [contradiction|lia].
+    + right. rewrite Hin. destruct (decide (a = t_from t)); [contradiction|].
+      pose proof (bal_range_bal_of _ a (ranges_ok_bal_range _ Hr)). lia.
+Qed.
+
+(* unstaking, proposal, voting, setdoc: the fee and nothing else *)
+Corollary deliver_other_cost s t s' g :
+  deliver s t = (s', Ok g) -> native s t ->
+  t_type t <> TRX_TRANSFER -> t_type t <> TRX_STAKING -> t_type t <> TRX_WITHDRAW ->
+  tx_wf t -> ranges_ok (work s) ->
+  g = t_gas t /\
+  bal_of (work s') (t_from t) = bal_of (work s) (t_from t) - fee_of t /\
+  (forall a, a <> t_from t -> bal_of (work s') a = bal_of (work s) a).
+Proof.
+  intros Hd Hn H1 H2 H8 Hwf Hr.
+  assert (Hpl : payload_wf t) by (apply payload_wf_other; exact H8).
+  destruct (deliver_native_balances _ _ _ _ Hd Hn Hwf Hpl (ranges_ok_bal_range _ Hr)) as (Hg & _ & Hb).
+  split; [exact Hg|].
+  apply Z.eqb_neq in H1, H2, H8.
+  assert (Hin : forall a, tx_in t a = 0) by (intros a; unfold tx_in; rewrite H1, H8; reflexivity).
+  assert (Hout : tx_out t = 0) by (unfold tx_out; rewrite H1, H2; reflexivity).
+  assert (Hroom : forall a, room_for (work s) t a).
+  { intros a. right. rewrite Hin. pose proof (bal_range_bal_of _ a (ranges_ok_bal_range _ Hr)). lia. }
+  split.
+  - rewrite (Hb _ (Hroom _)), Hin, Hout. destruct (decide (t_from t = t_from t)); [lia|congruence].
+  - intros a Hne. rewrite (Hb _ (Hroom _)), Hin. destruct (decide (a = t_from t)); [contradiction|lia].
+Qed.
+
+(* ================================================================== F3: the fee sum of the block *)
+Lemma post_run_bctx s2 gp t l' s' r :
+  post_run s2 gp t l' = (s', r) ->
+  bctx s' = match r with Ok g => add_fee (bctx s2) (mul256 g gp) | _ => bctx s2 end /\
+  gparams s' = gparams s2 /\ committed s' = committed s2 /\ last_height s' = last_height s2.
+Proof.
+  unfold post_run. destruct (accts l' !! t_from t) as [snd'|]; [|intros [= <- <-]; auto].
+  destruct (sub_balance snd' (fee_of t)) as [snd''|]; intros [= <- <-]; auto.
+Qed.
+
+(* what [deliver] does to the block context and the control part, whatever the outcome *)
+Lemma deliver_bctx s t s' r :
+  deliver s t = (s', r) ->
+  b_height (bctx s') = b_height (bctx s) /\ b_proposer (bctx s') = b_proposer (bctx s) /\
+  b_feesum (bctx s') = match r with
+                       | Ok g => add256 (b_feesum (bctx s)) (mul256 g (g_gasPrice (gparams s)))
+                       | _ => b_feesum (bctx s) end /\
+  gparams s' = gparams s /\ committed s' = committed s /\ last_height s' = last_height s.
+Proof.
+  rewrite deliver_eq. destruct (accts (work s) !! t_from t) as [sender|]; [|intros [= <- <-]; auto 10].
+  unfold deliver_body.
+  destruct (common_validation0 (gparams s) t) as [e|]; [intros [= <- <-]; auto 10|].
+  destruct (common_validation1 sender t) as [e|]; [intros [= <- <-]; auto 10|].
+  destruct (validated_of (pre_state s t) (receiver_of s t) t) as [lim'|e|p]; [|intros [= <- <-]; auto 10..].
+  destruct (evm_path_of t (receiver_of s t)).
+  - destruct (evm_execute _ t) as [[l' gas]|e|p]; intros [= <- <-]; auto 10.
+  - destruct (exec_native _ t) as [l'|e|p]; [|intros [= <- <-]; auto 10..].
+    intros H. apply post_run_bctx in H as (Hb & Hg & Hc & Hl). rewrite Hb, Hg, Hc, Hl.
+    destruct r; auto 10.
+Qed.
+
+(* C16: on success (either path) the fee sum grows by gas used x governance price, on failure or
+   panic it does not change *)
+Theorem deliver_feesum s t s' r :
+  deliver s t = (s', r) ->
+  b_feesum (bctx s') = match r with
+                       | Ok g => add256 (b_feesum (bctx s)) (mul256 g (g_gasPrice (gparams s)))
+                       | _ => b_feesum (bctx s) end.
+Proof. intros H. apply deliver_bctx in H. tauto. Qed.
+Print Assumptions deliver_feesum.
+
+(* on the native path that increment is exactly what the sender paid as fee *)
+Corollary deliver_native_feesum s t s' g :
+  deliver s t = (s', Ok g) -> native s t ->
+  b_feesum (bctx s') = add256 (b_feesum (bctx s)) (fee_of t).
+Proof.
+  intros Hd Hn. rewrite (deliver_feesum _ _ _ _ Hd).
+  pose proof (deliver_ok_admission _ _ _ _ Hd) as (Hp & _).
+  apply deliver_ok_inv in Hd as (sender & lim' & _ & _ & _ & _ & Hd). cbv zeta in Hd.
+  rewrite receiver_of_eq in Hd. unfold native in Hn. rewrite Hn in Hd.
+  destruct Hd as (l' & snd' & snd'' & _ & _ & _ & -> & _).
+  unfold fee_of, mul256. rewrite Hp, Z.mul_comm. reflexivity.
+Qed.
+
+(* ================================================================== F5: end of block *)
+(* folds over [res]: once failed, a fold stays failed *)
+Definition res_stuck {A B} (f : res A -> B -> res A) : Prop :=
+  (forall e b, f (Err e) b = Err e) /\ (forall p b, f (Panic p) b = Panic p).
+
+Lemma foldl_stuck_Err {A B} (f : res A -> B -> res A) e items : res_stuck f -> foldl f (Err e) items = Err e.
+Proof. intros (He & _). induction items as [|b items IH]; simpl; [reflexivity|]. rewrite He. exact IH. Qed.
+Lemma foldl_stuck_Panic {A B} (f : res A -> B -> res A) p items : res_stuck f -> foldl f (Panic p) items = Panic p.
+Proof. intros (_ & Hp). induction items as [|b items IH]; simpl; [reflexivity|]. rewrite Hp. exact IH. Qed.
+
+(* invariant-style induction for such folds *)
+Lemma foldl_res_ind {A B} (f : res A -> B -> res A) (P : A -> A -> Prop) :
+  res_stuck f -> (forall a, P a a) -> (forall a b c, P a b -> P b c -> P a c) ->
+  (forall a b a', f (Ok a) b = Ok a' -> P a a') ->
+  forall items a a', foldl f (Ok a) items = Ok a' -> P a a'.
+Proof.
+  intros Hst Hrefl Htrans Hstep. induction items as [|b items IH]; simpl; intros a a' H.
+  - injection H as <-. apply Hrefl.
+  - destruct (f (Ok a) b) as [a1|e|p] eqn:E.
+    + apply Htrans with a1; [apply (Hstep _ _ _ E)|apply IH; exact H].
+    + rewrite foldl_stuck_Err in H by exact Hst. discriminate.
+    + rewrite foldl_stuck_Panic in H by exact Hst. discriminate.
+Qed.
+
+(* the part of a ledger state that carries value *)
+Definition same_money (l l' : ledgers) : Prop :=
+  accts l' = accts l /\ dels l' = dels l /\ frozen l' = frozen l /\ rewards l' = rewards l.
+Lemma same_money_refl l : same_money l l. Proof. repeat split. Qed.
+Lemma same_money_trans a b c : same_money a b -> same_money b c -> same_money a c.
+Proof. intros (H1 & H2 & H3 & H4) (G1 & G2 & G3 & G4). repeat split; congruence. Qed.
+
+Definition freeze_step (h : Z) (acc : res ledgers) (kp : hash * proposal) : res ledgers :=
+  match acc with
+  | Ok l =>
+      let p := kp.2 in
+      if p_end p <? h then
+        match props l !! kp.1 with
+        | None => Panic P_ENDBLOCK
+        | Some _ =>
+            let l1 := set_props l (delete kp.1 (props l)) in
+            match update_major p with
+            | Ok p' => match p_major p' with
+                       | Some _ => Ok (set_fprops l1 (<[kp.1 := p']> (fprops l1)))
+                       | None => Ok l1 end
+            | Err e => Err e | Panic x => Panic x
+            end
+        end
+      else Ok l
+  | x => x end.
+
+Lemma freeze_proposals_eq base l h : freeze_proposals base l h = foldl (freeze_step h) (Ok l) (sorted_items (props base)).
+Proof. reflexivity. Qed.
+
+Lemma freeze_proposals_money base l h l1 : freeze_proposals base l h = Ok l1 -> same_money l l1.
+Proof.
+  rewrite freeze_proposals_eq. apply foldl_res_ind.
+  - split; reflexivity.
+  - apply same_money_refl.
+  - apply same_money_trans.
+  - intros a kp a'. unfold freeze_step.
+    destruct (p_end kp.2 <? h); [|intros [= <-]; apply same_money_refl].
+    destruct (props a !! kp.1); [|discriminate].
+    destruct (update_major kp.2) as [p'|e|x]; [|discriminate..].
+    destruct (p_major p'); intros [= <-]; repeat split.
+Qed.
+
+Definition apply_step (s : state) (h : Z) (acc : res (ledgers * option params)) (kp : hash * proposal)
+  : res (ledgers * option params) :=
+  match acc with
+  | Ok (l, np) =>
+      let p := kp.2 in
+      if p_apply p <=? h then
+        match fprops l !! kp.1 with
+        | None => Panic P_ENDBLOCK
+        | Some _ =>
+            let l1 := set_fprops l (delete kp.1 (fprops l)) in
+            match p_major p with
+            | Some o =>
+                if p_opttype p =? PROPOSAL_GOVPARAMS then
+                  match o_params o with
+                  | Some newp => let m := merge_params (gparams s) newp in Ok (set_lparams l1 m, Some m)
+                  | None => Panic P_ENDBLOCK
+                  end
+                else Ok (l1, np)
+            | None => Ok (l1, np)
+            end
+        end
+      else Ok (l, np)
+  | x => x end.
+
+Lemma apply_proposals_eq s base l h :
+  apply_proposals s base l h = foldl (apply_step s h) (Ok (l, newparams s)) (sorted_items (fprops base)).
+Proof. reflexivity. Qed.
+
+Lemma apply_proposals_money s base l h l2 np : apply_proposals s base l h = Ok (l2, np) -> same_money l l2.
+Proof.
+  rewrite apply_proposals_eq.
+  apply (foldl_res_ind (apply_step s h) (fun x y => same_money x.1 y.1)).
+  - split; reflexivity.
+  - intros a. apply same_money_refl.
+  - intros a b c. apply same_money_trans.
+  - intros [a np0] kp [a' np']. unfold apply_step. cbn [fst].
+    destruct (p_apply kp.2 <=? h); [|intros [= <- <-]; apply same_money_refl].
+    destruct (fprops a !! kp.1); [|discriminate].
+    destruct (p_major kp.2) as [o|]; [|intros [= <- <-]; repeat split].
+    destruct (p_opttype kp.2 =? PROPOSAL_GOVPARAMS); [|intros [= <- <-]; repeat split].
+    destruct (o_params o); [|discriminate]. intros [= <- <-]; repeat split.
+Qed.
+
+(* AcctCtrler.EndBlock: the block's fee sum goes to the proposer *)
+Definition pay_proposer (l2 : ledgers) (b : blockctx) : option ledgers :=
+  match b_proposer b with
+  | Some pa => if 0 <? sign256 (b_feesum b) then
+                 match add_balance (default acct0 (accts l2 !! pa)) (b_feesum b) with
+                 | Some x => Some (set_acct l2 pa x) | None => None end
+               else Some l2
+  | None => Some l2 end.
+
+Definition unfreeze_step (h : Z) (acc : res ledgers) (kp : hash * stake) : res ledgers :=
+  match acc with
+  | Ok l =>
+      let s0 := kp.2 in
+      if s_refund s0 <=? h then
+        match acct_reward l (s_from s0) (power_to_amount (s_power s0)) with
+        | None => Panic P_ENDBLOCK
+        | Some l1 => Ok (set_frozen l1 (delete kp.1 (frozen l1)))
+        end
+      else Ok l
+  | x => x end.
+
+Lemma unfreeze_eq base l h : unfreeze base l h = foldl (unfreeze_step h) (Ok l) (sorted_items (frozen base)).
+Proof. reflexivity. Qed.
+
+Lemma end_block_inv s s' r :
+  end_block s = (s', r) ->
+  match r with
+  | Ok ups =>
+      exists l1 l2 np l3,
+        freeze_proposals (base_of s) (work s) (b_height (bctx s)) = Ok l1 /\
+        apply_proposals s (base_of s) l1 (b_height (bctx s)) = Ok (l2, np) /\
+        pay_proposer l2 (bctx s) = Some l3 /\
+        unfreeze (base_of s) l3 (b_height (bctx s)) = Ok (work s') /\
+        bctx s' = bctx s /\ committed s' = committed s /\ gparams s' = gparams s /\ newparams s' = np /\
+        last_height s' = last_height s
+  | _ => s' = s
+  end.
+Proof.
+  unfold end_block. fold (pay_proposer).
+  destruct (freeze_proposals (base_of s) (work s) (b_height (bctx s))) as [l1|e|p]; [|intros [= <- <-]; reflexivity..].
+  destruct (apply_proposals s (base_of s) l1 (b_height (bctx s))) as [[l2 np]|e|p] eqn:Ea; [|intros [= <- <-]; reflexivity..].
+  change (match b_proposer (bctx s) with
+          | Some pa => if 0 <? sign256 (b_feesum (bctx s)) then
+                 match add_balance (default acct0 (accts l2 !! pa)) (b_feesum (bctx s)) with
+                 | Some x => Some (set_acct l2 pa x) | None => None end
+               else Some l2
+          | None => Some l2 end) with (pay_proposer l2 (bctx s)).
+  destruct (pay_proposer l2 (bctx s)) as [l3|] eqn:Ep; [|intros [= <- <-]; reflexivity].
+  destruct (unfreeze (base_of s) l3 (b_height (bctx s))) as [l4|e|p] eqn:Eu; [|intros [= <- <-]; reflexivity..].
+  destruct (g_maxValidatorCnt (gparams s) <? 0); intros [= <- <-]; [reflexivity|].
+  exists l1, l2, np, l3. cbn. repeat split; assumption.
+Qed.
+
+Lemma unfreeze_step_stuck h : res_stuck (unfreeze_step h).
+Proof. split; reflexivity. Qed.
+
+Lemma acct_reward_inv l a amt l' :
+  acct_reward l a amt = Some l' ->
+  exists x x', accts l !! a = Some x /\ add_balance x amt = Some x' /\ l' = set_acct l a x'.
+Proof.
+  unfold acct_reward. destruct (accts l !! a) as [x|]; [|discriminate]. cbn [mbind option_bind].
+  destruct (add_balance x amt) as [x'|] eqn:E; [|discriminate]. cbn [mbind option_bind].
+  intros [= <-]. exists x, x'. auto.
+Qed.
+
+Lemma unfreeze_step_inv h l kp l' :
+  unfreeze_step h (Ok l) kp = Ok l' ->
+  ((s_refund kp.2 <=? h) = false /\ l' = l) \/
+  ((s_refund kp.2 <=? h) = true /\
+   exists x x', accts l !! s_from kp.2 = Some x /\ add_balance x (power_to_amount (s_power kp.2)) = Some x' /\
+     l' = set_frozen (set_acct l (s_from kp.2) x') (delete kp.1 (frozen l))).
+Proof.
+  unfold unfreeze_step. destruct (s_refund kp.2 <=? h); [|intros [= <-]; left; auto].
+  destruct (acct_reward l (s_from kp.2) (power_to_amount (s_power kp.2))) as [l1|] eqn:E; [|discriminate].
+  apply acct_reward_inv in E as (x & x' & Hx & Ha & ->). intros [= <-]. right. split; [reflexivity|].
+  exists x, x'. auto.
+Qed.
+
+(* what one matured stake pays to account [a] *)
+Definition refund_of (h : Z) (a : addr) (kp : hash * stake) : Z :=
+  if (s_refund kp.2 <=? h) && (s_from kp.2 =? a)%N then power_to_amount (s_power kp.2) else 0.
+Definition refunds_to (items : list (hash * stake)) (h : Z) (a : addr) : Z := sumZ_with (refund_of h a) items.
+
+Lemma power_to_amount_range p : 0 <= power_to_amount p < two256.
+Proof. apply mul256_range. Qed.
+
+Lemma refund_of_nonneg h a kp : 0 <= refund_of h a kp.
+Proof. unfold refund_of. destruct (_ && _); [apply power_to_amount_range|lia]. Qed.
+
+Lemma sumZ_with_nonneg {A} (f : A -> Z) l : (forall x, 0 <= f x) -> 0 <= sumZ_with f l.
+Proof. intros H. induction l as [|x l IH]; simpl; [lia|]. specialize (H x). lia. Qed.
+
+Lemma refunds_to_nonneg items h a : 0 <= refunds_to items h a.
+Proof. apply sumZ_with_nonneg. intros kp. apply refund_of_nonneg. Qed.
+
+Lemma unfreeze_fold_balances h items : forall l l4,
+  foldl (unfreeze_step h) (Ok l) items = Ok l4 -> bal_range l ->
+  bal_range l4 /\
+  forall a, bal_of l a + refunds_to items h a < two256 -> bal_of l4 a = bal_of l a + refunds_to items h a.
+Proof.
+  induction items as [|kp items IH]; intros l l4 Hf Hr.
+  - simpl in Hf. injection Hf as <-. split; [exact Hr|]. intros a _. unfold refunds_to. simpl. lia.
+  - cbn [foldl] in Hf. destruct (unfreeze_step h (Ok l) kp) as [l1|e|p] eqn:E.
+    2:{ rewrite foldl_stuck_Err in Hf by apply unfreeze_step_stuck. discriminate. }
+    2:{ rewrite foldl_stuck_Panic in Hf by apply unfreeze_step_stuck. discriminate. }
+    apply unfreeze_step_inv in E as [(Em & ->)|(Em & x & x' & Hx & Ha & ->)].
+    + destruct (IH _ _ Hf Hr) as (Hr4 & Hb). split; [exact Hr4|].
+      intros a Hroom. unfold refunds_to in *. simpl in *. unfold refund_of at 1 in Hroom. unfold refund_of at 1.
+      rewrite Em in *. cbn [andb] in *. rewrite Hb by lia. lia.
+    + pose proof (power_to_amount_range (s_power kp.2)) as Hamt.
+      apply add_balance_Some in Ha as (_ & Hb' & _); [|lia].
+      assert (Hr1 : bal_range (set_frozen (set_acct l (s_from kp.2) x') (delete kp.1 (frozen l)))).
+      { intros a y. rewrite accts_set_frozen. apply bal_range_set_acct; [exact Hr|]. rewrite Hb'. apply add256_range. }
+      destruct (IH _ _ Hf Hr1) as (Hr4 & Hb). split; [exact Hr4|].
+      intros a Hroom. unfold refunds_to in *. simpl in *. unfold refund_of at 1 in Hroom. unfold refund_of at 1.
+      rewrite Em in *. cbn [andb] in *.
+      pose proof (sumZ_with_nonneg (refund_of h a) items (refund_of_nonneg h a)) as Hnn.
+      pose proof (bal_of_lookup _ _ _ Hx) as Hbx. pose proof (Hr _ _ Hx) as Hxr.
+      specialize (Hb a). rewrite bal_of_set_frozen, bal_of_set_acct in Hb.
+      destruct (s_from kp.2 =? a)%N eqn:Ea.
+      * apply N.eqb_eq in Ea. subst a. destruct (decide (s_from kp.2 = s_from kp.2)); [|congruence].
+        rewrite Hb', add256_small in Hb by lia. rewrite Hb by lia. lia.
+      * apply N.eqb_neq in Ea. destruct (decide (s_from kp.2 = a)); [contradiction|]. rewrite Hb by lia. lia.
+Qed.
+
+Lemma pay_proposer_balances l2 b l3 :
+  pay_proposer l2 b = Some l3 -> bal_range l2 -> 0 <= b_feesum b < two256 ->
+  let fee := if 0 <? sign256 (b_feesum b) then b_feesum b else 0 in
+  dels l3 = dels l2 /\ frozen l3 = frozen l2 /\ rewards l3 = rewards l2 /\ bal_range l3 /\
+  forall a, (b_proposer b = Some a -> bal_of l2 a + fee < two256) ->
+    bal_of l3 a = bal_of l2 a + (if decide (b_proposer b = Some a) then fee else 0).
+Proof.
+  unfold pay_proposer. intros Hp Hr Hf. cbv zeta.
+  destruct (b_proposer b) as [pa|].
+  2:{ injection Hp as <-. refine (conj eq_refl (conj eq_refl (conj eq_refl (conj Hr _)))).
+      intros a _. destruct (decide (None = Some a)); [discriminate|lia]. }
+  destruct (0 <? sign256 (b_feesum b)) eqn:Es.
+  2:{ injection Hp as <-. refine (conj eq_refl (conj eq_refl (conj eq_refl (conj Hr _)))).
+      intros a _. destruct (decide (Some pa = Some a)); lia. }
+  destruct (add_balance (default acct0 (accts l2 !! pa)) (b_feesum b)) as [x|] eqn:Ea; [|discriminate].
+  injection Hp as <-. apply add_balance_Some in Ea as (_ & Hb & _); [|lia].
+  refine (conj eq_refl (conj eq_refl (conj eq_refl (conj _ _)))).
+  - apply bal_range_set_acct; [exact Hr|]. rewrite Hb. apply add256_range.
+  - intros a Hroom. rewrite bal_of_set_acct.
+    pose proof (bal_range_bal_of _ pa Hr) as Hpr. change (a_bal (default acct0 (accts l2 !! pa))) with (bal_of l2 pa) in Hb.
+    destruct (decide (pa = a)) as [<-|Hne].
+    + destruct (decide (Some pa = Some pa)); [|congruence]. specialize (Hroom eq_refl).
+      rewrite Hb, add256_small by lia. reflexivity.
+    + destruct (decide (Some pa = Some a)) as [Heq|_]; [congruence|]. lia.
+Qed.
+
+(* C16, end of block: every balance grows by exactly the block's fee sum (for the proposer, when
+   the sum is positive as the code tests it: 0 < sum < 2^255) plus the refunds of the matured
+   unbonding stakes of the committed tree; nobody receives fees when there is no proposer.
+   Exact over Z under the stated room hypothesis (InvSupply derives it from the supply bound). *)
+Definition end_fee (b : blockctx) (a : addr) : Z :=
+  if decide (b_proposer b = Some a) then (if 0 <? sign256 (b_feesum b) then b_feesum b else 0) else 0.
+
+Theorem end_block_balances s s' ups :
+  end_block s = (s', Ok ups) -> bal_range (work s) -> 0 <= b_feesum (bctx s) < two256 ->
+  let h := b_height (bctx s) in
+  let items := sorted_items (frozen (base_of s)) in
+  bal_range (work s') /\
+  forall a, bal_of (work s) a + end_fee (bctx s) a + refunds_to items h a < two256 ->
+    bal_of (work s') a = bal_of (work s) a + end_fee (bctx s) a + refunds_to items h a.
+Proof.
+  intros He Hr Hf. cbv zeta.
+  apply end_block_inv in He as (l1 & l2 & np & l3 & H1 & H2 & H3 & H4 & _).
+  apply freeze_proposals_money in H1 as (Ha1 & _). apply apply_proposals_money in H2 as (Ha2 & _).
+  assert (Hr2 : bal_range l2) by (intros a x; rewrite Ha2, Ha1; apply Hr).
+  destruct (pay_proposer_balances _ _ _ H3 Hr2 Hf) as (_ & _ & _ & Hr3 & Hb3).
+  rewrite unfreeze_eq in H4. destruct (unfreeze_fold_balances _ _ _ _ H4 Hr3) as (Hr4 & Hb4).
+  split; [exact Hr4|]. intros a Hroom.
+  pose proof (refunds_to_nonneg (sorted_items (frozen (base_of s))) (b_height (bctx s)) a) as Hnn.
+  assert (Hl2 : bal_of l2 a = bal_of (work s) a).
+  { rewrite (bal_of_same_accts _ _ a Ha2). apply bal_of_same_accts. exact Ha1. }
+  unfold end_fee in *.
+  assert (Hb3a : bal_of l3 a = bal_of (work s) a +
+            (if decide (b_proposer (bctx s) = Some a) then if 0 <? sign256 (b_feesum (bctx s)) then b_feesum (bctx s) else 0 else 0)).
+  { rewrite Hb3, Hl2; [reflexivity|]. intros Hpa. rewrite Hl2.
+    destruct (decide (b_proposer (bctx s) = Some a)); [|contradiction]. lia. }
+  rewrite Hb4; rewrite Hb3a; lia.
+Qed.
+Print Assumptions end_block_balances.
+
+(* the two readings asked for *)
+Corollary end_block_proposer_credit s s' ups pa :
+  end_block s = (s', Ok ups) -> bal_range (work s) -> b_proposer (bctx s) = Some pa ->
+  0 < b_feesum (bctx s) < two255 ->
+  let refunds := refunds_to (sorted_items (frozen (base_of s))) (b_height (bctx s)) pa in
+  bal_of (work s) pa + b_feesum (bctx s) + refunds < two256 ->
+  bal_of (work s') pa = bal_of (work s) pa + b_feesum (bctx s) + refunds.
+Proof.
+  intros He Hr Hp Hf. cbv zeta. intros Hroom.
+  assert (Hf' : 0 <= b_feesum (bctx s) < two256) by (pose proof two255_two256; lia).
+  destruct (end_block_balances _ _ _ He Hr Hf') as (_ & Hb). cbv zeta in Hb.
+  assert (Hfee : end_fee (bctx s) pa = b_feesum (bctx s)).
+  { unfold end_fee. destruct (decide (b_proposer (bctx s) = Some pa)); [|contradiction].
+    assert (Hs : (0 <? sign256 (b_feesum (bctx s))) = true) by (apply sign256_pos_iff; lia). rewrite Hs. reflexivity. }
+  rewrite Hb; rewrite Hfee; [reflexivity|exact Hroom].
+Qed.
+
+Corollary end_block_no_proposer s s' ups :
+  end_block s = (s', Ok ups) -> bal_range (work s) -> b_proposer (bctx s) = None ->
+  0 <= b_feesum (bctx s) < two256 ->
+  forall a, let refunds := refunds_to (sorted_items (frozen (base_of s))) (b_height (bctx s)) a in
+  bal_of (work s) a + refunds < two256 -> bal_of (work s') a = bal_of (work s) a + refunds.
+Proof.
+  intros He Hr Hp Hf a. cbv zeta. intros Hroom.
+  destruct (end_block_balances _ _ _ He Hr Hf) as (_ & Hb). cbv zeta in Hb.
+  assert (Hfee : end_fee (bctx s) a = 0).
+  { unfold end_fee. rewrite Hp. destruct (decide (None = Some a)); [discriminate|reflexivity]. }
+  rewrite Hb; rewrite Hfee; lia.
+Qed.
+
+(* [begin_block] opens every block with an empty fee sum *)
+Lemma begin_block_feesum s hd s' r :
+  begin_block s hd = (s', r) -> h_height hd = last_height s + 1 ->
+  b_feesum (bctx s') = 0 /\ b_proposer (bctx s') = h_proposer hd /\ b_height (bctx s') = h_height hd.
+Proof.
+  unfold begin_block. intros H Hh. rewrite Hh, Z.eqb_refl in H. cbn [negb] in H. cbv zeta in H.
+  destruct (h_votes hd) as [|v vs]; [injection H as <- <-; auto|].
+  destruct (process_votes _ _ _ _) as [[l3 issued]|e|p]; injection H as <- <-; auto.
 Qed.
